@@ -58,8 +58,8 @@ def run(repo: Repo, chk: Check, thorough: bool = False) -> None:
     chk.ob('R08.1', f'{PARSE_BARRIER} :: original text is not re-bound', not rebinds,
            f'parameter `{docparam}` is never assigned' if not rebinds else f'`{docparam}` is modified at line {rebinds[0].lineno}: '
            'the plaintext fallback would show altered text', f.loc)
-    parser_vars = {t.id for n in f.walk() if isinstance(n, ast.Assign) for t in n.targets if isinstance(t, ast.Name)
-                   and isinstance(n.value, ast.Call) and call_name(n.value) in ('get_parser_by_name', 'processtypes')}
+    from ..util import parser_valued, private_helper_of
+    parser_vars = {t.id for n in f.walk() if isinstance(n, ast.Assign) for t in n.targets if isinstance(t, ast.Name) and parser_valued(repo, f, t.id)}
     parser_calls = [c for c in calls_in(f) if isinstance(c.func, ast.Name) and c.func.id in parser_vars]
     if not parser_calls:
         chk.error('R08.1: the call of the parser callable was not found in parse_docstring')
@@ -122,7 +122,8 @@ def run(repo: Repo, chk: Check, thorough: bool = False) -> None:
             if all(t == PLAINTEXT_PARSE for t in tg):
                 chk.ob('R08.2', key, True, 'total plaintext parser', s.loc)
                 continue
-            inside = g.mod.name.startswith(('pydoctor.epydoc.markup', 'pydoctor.napoleon')) or g.qn == PARSE_BARRIER
+            inside = g.mod.name.startswith(('pydoctor.epydoc.markup', 'pydoctor.napoleon')) or g.qn == PARSE_BARRIER or \
+                (all(t == 'pydoctor.epydoc.markup.get_parser_by_name' for t in tg) and private_helper_of(repo, g, PARSE_BARRIER))
             chk.ob('R08.2', key, inside,
                    'parser composition inside the markup layer / the barrier itself' if inside else
                    f'a format parser ({", ".join(tg)}) is called outside epydoc2stan.parse_docstring: its failures bypass the plaintext fallback',
